@@ -61,6 +61,9 @@ with ThreadPoolExecutor(max_workers=8) as ex:
     res = list(ex.map(run, cases))
 for r in res:
     print(r['unit'], r['fn'], r['local'], r['status'], r['reason'][:100])
+_f = os.path.join(V, 'harmless', 'RENAMES.json')
+if names and os.path.exists(_f):      # a partial re-run replaces only the cases of the named units
+    res = [r for r in json.load(open(_f))['cases'] if r['unit'] not in names] + res
 n = {k: sum(1 for r in res if r['status'] == k) for k in ('pass', 'undecided', 'violation')}
 json.dump({'summary': n, 'cases': res}, open(os.path.join(V, 'harmless', 'RENAMES.json'), 'w'), indent=1)
 print(n)
